@@ -5766,28 +5766,33 @@ impl BytecodeVM {
                     None => Ok(Guarded::unguarded(JsValue::Undefined)),
                 }
             }
-            JsValue::String(s) => match key {
-                JsValue::String(k) if k.as_str() == "length" => Ok(Guarded::unguarded(
-                    JsValue::Number(s.as_str().chars().count() as f64),
-                )),
-                JsValue::Number(n) => {
-                    let idx = *n as usize;
-                    if let Some(c) = s.as_str().chars().nth(idx) {
-                        return Ok(Guarded::unguarded(JsValue::String(JsString::from(
-                            c.to_string(),
-                        ))));
-                    }
-                    Ok(Guarded::unguarded(JsValue::Undefined))
-                }
-                _ => {
-                    let prop_key = interp.property_key_from_value(key);
-                    if let Some(val) = interp.string_prototype.borrow().get_property(&prop_key) {
-                        Ok(Guarded::unguarded(val.clone()))
-                    } else {
+            JsValue::String(s) => {
+                // Canonical array-index keys ("0", 0) address characters, "length" the length,
+                // every other key (negative, fractional, NaN, non-canonical strings) is an
+                // ordinary property looked up on String.prototype.
+                let prop_key = interp.property_key_from_value(key);
+                match &prop_key {
+                    PropertyKey::String(k) if k.as_str() == "length" => Ok(Guarded::unguarded(
+                        JsValue::Number(s.as_str().chars().count() as f64),
+                    )),
+                    PropertyKey::Index(idx) => {
+                        if let Some(c) = s.as_str().chars().nth(*idx as usize) {
+                            return Ok(Guarded::unguarded(JsValue::String(JsString::from(
+                                c.to_string(),
+                            ))));
+                        }
                         Ok(Guarded::unguarded(JsValue::Undefined))
                     }
+                    _ => {
+                        if let Some(val) = interp.string_prototype.borrow().get_property(&prop_key)
+                        {
+                            Ok(Guarded::unguarded(val.clone()))
+                        } else {
+                            Ok(Guarded::unguarded(JsValue::Undefined))
+                        }
+                    }
                 }
-            },
+            }
             JsValue::Number(_) => {
                 let prop_key = interp.property_key_from_value(key);
                 if let Some(val) = interp.number_prototype.borrow().get_property(&prop_key) {
